@@ -24,25 +24,25 @@ fn model(a: u32, b: u32, cp: u32) -> Ordering {
     }
 }
 
-/// the 12 relations of one (entry, cp) pair as observed
+/// the 14 relations of one (entry, cp) pair as observed (`!=` is its own method and may be overridden)
 #[allow(clippy::type_complexity)]
-fn observe(e: &Codepoints, cp: u32) -> Out<(Option<Ordering>, [bool; 5], Option<Ordering>, [bool; 5])> {
+fn observe(e: &Codepoints, cp: u32) -> Out<(Option<Ordering>, [bool; 6], Option<Ordering>, [bool; 6])> {
     guard_v(|| {
         (
             e.partial_cmp(&cp),
-            [*e < cp, *e <= cp, *e > cp, *e >= cp, *e == cp],
+            [*e < cp, *e <= cp, *e > cp, *e >= cp, *e == cp, *e != cp],
             cp.partial_cmp(e),
-            [cp < *e, cp <= *e, cp > *e, cp >= *e, cp == *e],
+            [cp < *e, cp <= *e, cp > *e, cp >= *e, cp == *e, cp != *e],
         )
     })
 }
 
-fn expected(o: Ordering) -> (Option<Ordering>, [bool; 5], Option<Ordering>, [bool; 5]) {
+fn expected(o: Ordering) -> (Option<Ordering>, [bool; 6], Option<Ordering>, [bool; 6]) {
     (
         Some(o),
-        [o == Ordering::Less, o != Ordering::Greater, o == Ordering::Greater, o != Ordering::Less, o == Ordering::Equal],
+        [o == Ordering::Less, o != Ordering::Greater, o == Ordering::Greater, o != Ordering::Less, o == Ordering::Equal, o != Ordering::Equal],
         Some(o.reverse()),
-        [o == Ordering::Greater, o != Ordering::Less, o == Ordering::Less, o != Ordering::Greater, o == Ordering::Equal],
+        [o == Ordering::Greater, o != Ordering::Less, o == Ordering::Less, o != Ordering::Greater, o == Ordering::Equal, o != Ordering::Equal],
     )
 }
 
@@ -51,7 +51,7 @@ fn check_pair(a: u32, b: u32, range: bool, cp: u32, rec: &mut Rec) {
     let (lo, hi) = if range { (a, b) } else { (a, a) };
     let want = expected(model(lo, hi, cp));
     let got = observe(&e, cp);
-    rec.evals(12);
+    rec.evals(14);
     let key = (a, b, range, cp);
     let pos = if cp < lo {
         if cp + 1 == lo { "cp=start-1" } else { "cp<start" }
@@ -72,7 +72,7 @@ fn check_pair(a: u32, b: u32, range: bool, cp: u32, rec: &mut Rec) {
         rec.violation(
             "codepoints-comparison-inconsistent",
             Witness {
-                op: "partial_cmp/<,<=,>,>=,== both directions".into(),
+                op: "partial_cmp/<,<=,>,>=,==,!= both directions".into(),
                 case: format!("a={:X};b={:X};range={};cp={:X}", a, b, range as u8, cp),
                 expected: format!("{:?}", want),
                 observed: format!("{:?}", got),
